@@ -102,4 +102,35 @@ theorem build_render (ps : List Piece) (hclean : ∀ p ∈ ps, pieceClean p) (t 
         simp only [List.map_cons]
         rw [percentFormat_conv pad k (lookup_table_ok s pad k hl), ihr]; rfl
 
+theorem endsWith_append_self (b suf : Str) : endsWith (b ++ suf) suf = true := by
+  unfold endsWith
+  rw [List.isSuffixOf_iff_suffix]
+  exact List.suffix_append b suf
+
+theorem cut_utc_suffix (b : Str) : (b ++ utcSuffix).take ((b ++ utcSuffix).length - 4) = b := by
+  have : utcSuffix.length = 4 := by decide
+  simp [this]
+
+theorem suffixed_ne_fast (b : Str) : b ++ utcSuffix ≠ fastPathSpec := by
+  intro h
+  have h1 := endsWith_append_self b utcSuffix
+  rw [h] at h1
+  revert h1; decide
+
+theorem lookup_of_mem_nodup (tbl : List (Str × Str × Kernel)) (hnd : (tbl.map (·.1)).Nodup)
+    (e : Str × Str × Kernel) (he : e ∈ tbl) : lookup e.1 tbl = some e.2 := by
+  induction tbl with
+  | nil => cases he
+  | cons x rest ih =>
+    obtain ⟨k, pad, f⟩ := x
+    simp only [List.map_cons, List.nodup_cons] at hnd
+    rcases List.mem_cons.mp he with h | h
+    · subst h; simp [lookup]
+    · have hne : ¬ (k == e.1) = true := by
+        intro hk
+        have hk' : k = e.1 := by simpa using hk
+        exact hnd.1 (hk' ▸ List.mem_map.mpr ⟨e, h, rfl⟩)
+      simp only [lookup, hne]
+      exact ih hnd.2 h
+
 end Datetime
